@@ -1023,7 +1023,7 @@ class Globals:
         if k in ('zero', 'undef'):
             return '{0}' if isinstance(body, (StructT, ArrT)) else '0'
         if k == 'str':
-            s.literals16.append(list(v[1]))   # 8-bit literal, checked in widened form
+            if not str(getattr(s, 'cur_global', '')).startswith(('_ZTS', '_ZTI')): s.literals16.append(list(v[1]))   # 8-bit literal, checked in widened form (RTTI names never become strings)
             return '{ {' + ','.join(str(b) for b in v[1]) + '} }'
         if k == 'agg':
             if isinstance(body, ArrT) and isinstance(body.e, IntT) and body.e.bits == 16 and all(ev[0] == 'int' for (_et, ev) in v[1]):
@@ -1139,6 +1139,7 @@ def main():
                 fe = FnEmitter(em, None, gl)
                 if g.get('init') is not None:
                     gl.in_vtable = n if n.startswith('_ZTV') else None
+                    gl.cur_global = n
                     txt = gl.init(g['ty'], g['init'], fe)
                     gl.in_vtable = None
                 else: txt = None
